@@ -232,6 +232,62 @@ def snapshot(system, attribute):
     return [[(k, mol.nodes[k].get(attribute, '<<absent>>')) for k in mol.nodes] for mol in system.molecules]
 
 
+def _expected(seq, selected, lens):
+    n = len(seq)
+    total = sum(lens)
+    if n and not selected:
+        return 'error'
+    if lens and n == lens[0] and len(set(lens)) == 1:
+        return [seq for _ in lens]
+    if n == 1:
+        return [[seq[0]] * l for l in lens]
+    if n == total:
+        expect = []
+        pos = 0
+        for l in lens:
+            expect.append(seq[pos:pos + l])
+            pos += l
+        return expect
+    return 'error'
+
+
+def _apply_and_check(processor, case, seq, sequence, prefix=''):
+    """Build the system of `case`, run the (possibly already used) processor on it and compare with the documented rules.
+    Returns 'error' or 'assigned'."""
+    system, layout = build_system(case)
+    selected = [i for i, md in enumerate(case['mols']) if md['selected']]
+    lens = [len(case['mols'][i]['residues']) for i in selected]
+    total = sum(lens)
+    n = len(seq)
+    expect = _expected(seq, selected, lens)
+    before = snapshot(system, 'secstruct')
+    try:
+        processor.run_system(system)
+    except ValueError:
+        if expect != 'error':
+            raise Violation(prefix + 'assign-rejected', 'valid sequence of length %d rejected for selected residue counts %r' % (n, lens))
+        after = snapshot(system, 'secstruct')
+        if after != before:
+            raise Violation(prefix + 'assign-partial', 'ValueError raised but attributes were changed')
+        return 'error'
+    if expect == 'error':
+        raise Violation(prefix + 'assign-accepted-mismatch', 'sequence of length %d accepted for selected residue counts %r (total %d)' % (n, lens, total))
+    after = snapshot(system, 'secstruct')
+    for mi, mol in enumerate(system.molecules):
+        if mi not in selected:
+            if after[mi] != before[mi]:
+                raise Violation(prefix + 'assign-unselected-touched', 'unselected molecule %d was modified: %r -> %r' % (mi, before[mi][:4], after[mi][:4]))
+            continue
+        exp = expect[selected.index(mi)]
+        for ridx, keys in enumerate(layout[mi]):
+            for k in keys:
+                got = mol.nodes[k].get('secstruct', '<<absent>>')
+                if got != exp[ridx]:
+                    raise Violation(prefix + 'assign-misplaced', 'molecule %d residue %d atom %r: got %r, expected %r (sequence %r, selected residue counts %r)' % (
+                        mi, ridx, k, got, exp[ridx], sequence, lens))
+    return 'assigned'
+
+
 def _run_assign(case):
     system, layout = build_system(case)
     selected = [i for i, md in enumerate(case['mols']) if md['selected']]
@@ -258,51 +314,23 @@ def _run_assign(case):
     else:
         sequence = list(seq)
         selector = lambda mol: mol.meta.get('flag', False)  # noqa: E731
-    # expectation from the documented rules
-    if n and not selected:
-        expect = 'error'
-    elif lens and n == lens[0] and len(set(lens)) == 1:
-        expect = [seq for _ in lens]
-    elif n == 1:
-        expect = [[seq[0]] * l for l in lens]
-    elif n == total:
-        expect = []
-        pos = 0
-        for l in lens:
-            expect.append(seq[pos:pos + l])
-            pos += l
-    else:
-        expect = 'error'
-    before = snapshot(system, 'secstruct')
     processor = AnnotateResidues('secstruct', sequence, molecule_selector=selector)
     classes = [mode]
-    try:
-        processor.run_system(system)
-    except ValueError:
-        if expect != 'error':
-            raise Violation('assign-rejected', 'valid sequence of length %d rejected for selected residue counts %r' % (n, lens))
-        after = snapshot(system, 'secstruct')
-        if after != before:
-            raise Violation('assign-partial', 'ValueError raised but attributes were changed')
+    outcome = _apply_and_check(processor, case, seq, sequence)
+    # the same processor object on a second, differently sized system: the sequence it was created with still decides
+    mols2 = [dict(md) for md in reversed(case['mols'])]
+    if len(mols2) > 1:
+        mols2 = mols2[:-1]
+    else:
+        mols2[0] = dict(mols2[0], residues=list(mols2[0]['residues']) + [1])
+    case2 = dict(case, mols=mols2)
+    outcome2 = _apply_and_check(processor, case2, seq, sequence, prefix='reuse:')
+    classes.append('reuse-' + outcome2)
+    if outcome == 'error':
         classes.append('length-error')
         return Outcome(classes, False)
-    if expect == 'error':
-        raise Violation('assign-accepted-mismatch', 'sequence of length %d accepted for selected residue counts %r (total %d)' % (n, lens, total))
-    after = snapshot(system, 'secstruct')
     first_selected = selected[0] if selected else None
     unselected_before = any(not md['selected'] for md in case['mols'][:first_selected]) if selected else False
-    for mi, mol in enumerate(system.molecules):
-        if mi not in selected:
-            if after[mi] != before[mi]:
-                raise Violation('assign-unselected-touched', 'unselected molecule %d was modified: %r -> %r' % (mi, before[mi][:4], after[mi][:4]))
-            continue
-        exp = expect[selected.index(mi)]
-        for ridx, keys in enumerate(layout[mi]):
-            for k in keys:
-                got = mol.nodes[k].get('secstruct', '<<absent>>')
-                if got != exp[ridx]:
-                    raise Violation('assign-misplaced', 'molecule %d residue %d atom %r: got %r, expected %r (sequence %r, selected residue counts %r)' % (
-                        mi, ridx, k, got, exp[ridx], sequence, lens))
     if unselected_before:
         classes.append('unselected-first')
     if any(not md['selected'] for md in case['mols']):
@@ -334,7 +362,13 @@ def _strategy_assign(tier):
     })
     same_len = st.integers(1, 6).flatmap(lambda n: st.lists(
         mol.map(lambda m: dict(m, residues=(m['residues'] * 8)[:n])), min_size=1, max_size=5))
-    mols = st.one_of(st.lists(mol, min_size=1, max_size=6), st.lists(mol, min_size=1, max_size=6), same_len)
+    # selected molecules of unequal length whose first one has the mean length (4,3,5 / 2,1,3 / 5,5,2,8 ...)
+    mean_first = st.tuples(st.integers(2, 6), st.integers(1, 5), st.integers(0, 4), st.lists(mol, min_size=4, max_size=4)).map(
+        lambda t: [dict(t[3][0], selected=True, residues=[1] * t[0]),
+                   dict(t[3][1], selected=True, residues=[1] * max(1, t[0] - min(t[1], t[0] - 1))),
+                   dict(t[3][2], selected=True, residues=[1] * (t[0] + min(t[1], t[0] - 1)))]
+        + ([dict(t[3][3], selected=False)] if t[2] == 0 else []))
+    mols = st.one_of(st.lists(mol, min_size=1, max_size=6), st.lists(mol, min_size=1, max_size=6), same_len, mean_first)
     return st.fixed_dictionaries({
         'mols': mols,
         'selector': st.sampled_from(['protein', 'flag']),
